@@ -122,8 +122,10 @@ def cross_file(ctx, q):
     for c, a in zip(tcases, out):
         ni += a.count("=")
         for w in a.split(" "):
-            if "!range" in w or "!selection" in w:
-                sig = "C08:hierarchy-item-" + w.split("!")[-1].split(",")[0]
+            # (the harness upper-cases the answers)
+            if "!RANGE" in w.upper() or "!SELECTION-OUTSIDE" in w.upper():
+                flag = [x for x in w.upper().split("!")[1:] if x.startswith("RANGE") or x.startswith("SELECTION-OUTSIDE")][0]
+                sig = "C08:hierarchy-item-" + flag.split(",")[0].lower()
                 ctx.oracle_fail(sig, "hierarchy item with a bad range: %s" % w, {"mode": "tree", "case": c, "implementation": a})
                 break
     ctx.count("hierarchy answers checked", ni)
@@ -142,7 +144,7 @@ def replay(ctx):
         a = ctx.run_harness("tree", [line])[0]
         print("case          :", line)
         print("implementation:", a)
-        if "!range" in a or "!selection" in a:
+        if "!RANGE" in a.upper() or "!SELECTION-OUTSIDE" in a.upper():
             print("VIOLATION property=C08 replay=%s" % ctx.replay)
             return 1
         print("all hierarchy items of this case have well-formed ranges inside their documents")
